@@ -421,3 +421,138 @@ def _nonlin_sig(calls, why):
 
 def run_conc(prog, **kw):
     return ConcEngine(prog, **kw).run()
+
+
+class ConcCrashEngine(ConcEngine):
+    """C10 extension: the process dies while several threads are mid-call.  At the chosen mutating
+    seam event of the concurrent phase the store directory is snapshotted and every task dies; a new
+    instance on the snapshot must satisfy the recovery oracle for every pid."""
+
+    def _run(self):
+        import os
+        import shutil
+        from . import single
+        w, res, prog = self.world, self.res, self.prog
+        knobs = prog.get("knobs", {})
+        box = W.new_sandbox("csnap")
+        self.box = box
+        with seam.passthrough():
+            shutil.rmtree(box)
+            os.makedirs(os.path.join(box, "input"))
+        try:
+            with seam.activate(w.run, 0):
+                w.open_store()
+                mdl = w.model()
+                sv = single.run_setup(w, mdl, prog.get("setup", []))
+                if sv is not None:
+                    return
+                pre = mdl.clone()
+                pre_obs = single.observe_all(w)
+            r = w.run
+            r.crash_at = prog["crash"]["index"]
+            r.crash_kinds = seam.MUTATING
+            r.kill_all = True
+            r.crash_snapshot = os.path.join(box, "store")
+            sch = S.Sched(r, policy=knobs.get("policy", "random"), seed=prog.get("seed", 0),
+                          preempt=prog.get("preempt"), wake=knobs.get("wake", "fifo"),
+                          est_len=knobs.get("est_len", 200), pct_depth=knobs.get("pct_depth", 2),
+                          bound=knobs.get("bound", 2))
+
+            def make_body(ops):
+                def body():
+                    for op in ops:
+                        sch.yield_point()
+                        w.exec_op(op)
+                return body
+            for ops in prog["tasks"]:
+                sch.spawn(make_body(ops))
+            sch.run_all()
+            r.sched = None
+            r.crash_at = None
+            res.stats["preempt"] = dict((str(k), v) for k, v in sch.preempt_out.items())
+            res.flags.add("tasks:%d" % len(prog["tasks"]))
+            if not r.crashed:
+                res.flags.add("nofire")
+                res.stats["nofire"] = True
+                return
+            ev = r.crash_event
+            res.stats["site"] = {"kind": ev.kind, "cls": ev.cls, "task": ev.task}
+            res.stats["faults"] = {"crash:%s" % ev.kind: 1}
+            res.stats["interleaving"], res.stats["shared"] = interleaving_signature(r.log)
+            used = set()
+            legit = {}
+            stored_cids = set()
+            for ops in prog["tasks"]:
+                for op in ops:
+                    if op.get("pid") is not None:
+                        used.add(op["pid"])
+                        if op["op"] == "store":
+                            legit.setdefault(op["pid"], set()).add(w.contents[op["c"]])
+                        if op["op"] == "tag":
+                            b = pre.cid_bytes.get(pre.resolve_cid(op["cid"]))
+                            if b is not None:
+                                legit.setdefault(op["pid"], set()).add(b)
+                    if op["op"] == "store":
+                        stored_cids.add(pre.cid_of(w.contents[op["c"]]))
+            for pi, pid in enumerate(w.pids):
+                if pid in pre.pid2cid and pre.pid2cid[pid] in pre.cid_bytes:
+                    legit.setdefault(pi, set()).add(pre.cid_bytes[pre.pid2cid[pid]])
+            detail = {"tasks": prog["tasks"], "setup": prog.get("setup", []), "crash_site": res.stats["site"]}
+            w2 = W.World(prog, sandbox=box)
+            with seam.activate(w2.run, 0):
+                try:
+                    w2.open_store()
+                except Exception as e:
+                    res.violations.append(Violation({"C10"}, "crash", "ccrash:reopen-failed:%s" % type(e).__name__, detail))
+                    return
+                a = w2.alpha()
+                bad = W.object_hash_ok(a, pre.algo)
+                if bad:
+                    res.violations.append(Violation({"C10", "C09"}, "crash", "ccrash:partial-object", dict(detail, cids=bad)))
+                    return
+                base = pre.clone()
+                base.objs |= (set(a["objs"]) & stored_cids)
+                post = single.observe_all(w2)
+                for key, val in pre_obs.items():
+                    if key[1] in used:
+                        continue
+                    if not single.expect_obs(base, key).matches(post.get(key)):
+                        res.violations.append(Violation({"C10"}, "crash", "ccrash:bystander-changed",
+                                                        dict(detail, key=_jsonable(key), before=_jsonable(val),
+                                                             after=_jsonable(post.get(key)))))
+                        return
+                for pi in sorted(used):
+                    o = post[("obj", pi)]
+                    if o[0] == "ok":
+                        if o[1] not in legit.get(pi, set()):
+                            res.violations.append(Violation({"C10"}, "crash", "ccrash:wrong-bytes",
+                                                            dict(detail, pid=w.pids[pi], got=_jsonable(o[1]))))
+                            return
+                    elif o[1] not in single.NOTFOUND_OK:
+                        res.violations.append(Violation({"C10"}, "crash", "ccrash:retrieve-%s" % o[1],
+                                                        dict(detail, pid=w.pids[pi])))
+                        return
+                ci = 1 if len(w2.contents) > 1 else 0
+                for pi in sorted(used):
+                    o, e = w2.exec_op({"op": "delete", "pid": pi})
+                    if not (o[0] == "ok" or o == ("exc", "PidRefsDoesNotExist")):
+                        res.violations.append(Violation({"C10"}, "crash", "ccrash:recovery-delete:%s" % _outsig(o),
+                                                        dict(detail, pid=w.pids[pi], msg=e.get("msg"))))
+                        return
+                    o, e = w2.exec_op({"op": "store", "pid": pi, "c": ci, "kind": "str"})
+                    if o[0] != "ok":
+                        res.violations.append(Violation({"C10"}, "crash", "ccrash:recovery-store:%s" % _outsig(o),
+                                                        dict(detail, pid=w.pids[pi], msg=e.get("msg"))))
+                        return
+                    o, e = w2.exec_op({"op": "retrieve", "pid": pi})
+                    if o != ("ok", w2.contents[ci]):
+                        res.violations.append(Violation({"C10"}, "crash", "ccrash:recovered-not-retrievable",
+                                                        dict(detail, pid=w.pids[pi], got=[o[0], _jsonable(o[1])])))
+                        return
+        finally:
+            with seam.passthrough():
+                shutil.rmtree(box, ignore_errors=True)
+
+
+def run_conc_crash(prog, **kw):
+    return ConcCrashEngine(prog, **kw).run()
